@@ -186,6 +186,12 @@ def replay(path):
     print("scenario", m)
     print("trace   ", drv.short(tr))
     print(f"GenFile accepts {reached} of {ln} events" + ("" if reached == ln else f"; stuck at {tr['events'][reached]}"))
+    if reached < ln:
+        for d, fid in sorted({f["deviation"]: f["id"] for f in common.open_findings(PID)
+                              if f["deviation"] in KNOWN_DEVS}.items()):
+            g, _ = _validate([tr], d)
+            if g[0][0] == g[0][1]:
+                print(f"explained by the listed deviation {d} ({fid})")
     return 0 if reached == ln else 1
 
 
